@@ -220,6 +220,15 @@ func main() {
 		}
 		e.redirects[kv[0]] = f
 	}
+	if dm := os.Getenv("GOSMT_EVALMODEL"); dm != "" {
+		if b, err := os.ReadFile(dm); err == nil {
+			var rf struct {
+				Model map[string]uint64
+			}
+			json.Unmarshal(b, &rf)
+			e.debugModel = rf.Model
+		}
+	}
 	if *modelPath != "" {
 		b, err := os.ReadFile(*modelPath)
 		if err == nil {
